@@ -48,3 +48,21 @@ pub fn hash<T: Hash + 'static>(value: &T) -> u64 {
     value.hash(&mut s);
     s.finish()
 }
+
+/// The identity of a memoized function: the hash of its signature (computed by
+/// the macro) mixed with where the function is defined, so that functions with
+/// token-identical signatures in different modules do not share a key.
+pub const fn memo_key(signature_hash: u64, module_path: &str, line: u32, column: u32) -> u64 {
+    // FNV-1a
+    const PRIME: u64 = 0x0000_0100_0000_01b3;
+    let mut h: u64 = 0xcbf2_9ce4_8422_2325 ^ signature_hash;
+    h = h.wrapping_mul(PRIME);
+    let bytes = module_path.as_bytes();
+    let mut i = 0;
+    while i < bytes.len() {
+        h = (h ^ bytes[i] as u64).wrapping_mul(PRIME);
+        i += 1;
+    }
+    h = (h ^ line as u64).wrapping_mul(PRIME);
+    (h ^ column as u64).wrapping_mul(PRIME)
+}
